@@ -18,8 +18,17 @@ RULE = ("cases = (a) random labelled grids (1-4 dims; float64/float32/int32/int6
 ASSUMPTIONS = ["HDF5 (h5py) and FITS (astropy) are third-party: the read/write clause is explored on the real libraries, not proved",
                "'exactly at nodes' is read as: to within 4 ulp of the neighbouring values (scipy interp1d evaluates slope*(x-x_lo)+y_lo, which is exact at x_lo and rounded at x_hi)",
                "a format's loud rejection of a name/dtype it cannot represent (non-ASCII keyword value or bool in FITS, empty dataset name in HDF5) is counted as 'rejected', not as a violation; a silent difference after read-back is a violation"]
-regen = regen_tables
 MASS_TAU = 1.77686
+
+
+def regen():
+    """the tables and the source tie: Props/C18.lean bridges the blend of `vec_1d_interp` (Gen/Src/C18) and imports the
+    bridged Props/C04.lean, Props/C05.lean (Gen/Src/C04, Gen/Src/C05)"""
+    import srctie
+    out = regen_tables()
+    for p in ("C18", "C04", "C05"):
+        out.update(srctie.regen(p))
+    return out
 
 
 def rand_grid(rng, fmt):
@@ -256,6 +265,8 @@ def run(ctx: Ctx):
             ctx.violation("vec_1d_interp", "raises-on-valid-batch", f"{type(ex).__name__}: {str(ex)[:120]} for a batch of {B} non-decreasing rows with {n} nodes and queries strictly inside the row ranges",
                           {"batch_rows": B, "nodes": n, "rows": rows.tolist(), "ys": ys.tolist(), "x": xq.tolist()})
             continue
+        import tautie
+        tautie.compare_blend(ctx, rows, ys, xq, got)   # source tie: the translated two-point blend next to the real function
         o = run_driver([f"vecbatch {B} {n} {fh(rows)} {fh(ys)} {fh(xq)}"])[0]
         plateau = bool((np.diff(rows, axis=1) == 0).any())
         ctx.count("rows_with_plateau" if plateau else "rows_strict", B)
